@@ -498,6 +498,37 @@ func (p *Program) touchInstr(in ssa.Instruction, t map[string]bool, gl map[*ssa.
 			t[x] = true
 		}
 	}
+	// a call into another package without contract: it can write only what its
+	// arguments let it reach (heaps chosen by the static argument types)
+	unknown := func(cc *ssa.CallCommon) {
+		add("next")
+		var tys []types.Type
+		if cc.IsInvoke() {
+			tys = append(tys, cc.Value.Type())
+		}
+		for _, a := range cc.Args {
+			tys = append(tys, a.Type())
+		}
+		for _, ty := range tys {
+			c := classify(ty)
+			switch {
+			case c.K == KSlice && c.Elem == "byte":
+				add("BMem")
+			case c.K == KSlice && c.Elem == "string":
+				add("SMem")
+			case c.K == KSlice:
+				add("BMem", "SMem")
+			case c.What == "bigint":
+				add("BigVal")
+			case c.What == "map":
+				add("MDom", "MVal")
+			case c.What == "iface":
+				add("HAcc", "RPos")
+			case c.K == KPtr || c.K == KOpaque || c.K == KFunc:
+				add(heapMaps...)
+			}
+		}
+	}
 	switch v := in.(type) {
 	case *ssa.Alloc:
 		if isNamed(v.Type().(*types.Pointer).Elem(), "math/big", "Int") {
@@ -528,8 +559,7 @@ func (p *Program) touchInstr(in ssa.Instruction, t map[string]bool, gl map[*ssa.
 			if h := deps[name]; h != nil {
 				add(h.touch...)
 			} else {
-				add(heapMaps...)
-				add("next")
+				unknown(&cc)
 			}
 			return
 		}
@@ -582,8 +612,7 @@ func (p *Program) touchInstr(in ssa.Instruction, t map[string]bool, gl map[*ssa.
 			if callee.Name() == "init" {
 				return
 			}
-			add(heapMaps...)
-			add("next")
+			unknown(&cc)
 		default:
 			add(heapMaps...)
 			add("next")
